@@ -715,6 +715,31 @@ def run(rep, tier, seed):
                                 rep.add("C19|java|equals|reference-equality", f"{cn}.{mn} compares two {ta.split('.')[-1]} "
                                         f"objects with {'==' if x['k'] == 'EQUAL_TO' else '!='}: equal values held by different "
                                         f"instances (range tags, parsed objects) compare unequal", f"{name} {cn}.{mn}")
+        # equals() of a class that has subclasses in the module (a range tag with named sub-tags is a sealed class whose
+        # constants are subclasses; the parser always allocates the range class itself) must not be class-strict:
+        # `getClass() != o.getClass()` makes the named constant unequal to the parsed object of the same value
+        supers = set()
+        for cn, kc in jm.classes.items():
+            ex = kc.get("extends")
+            if ex:
+                supers.add(str(ex).split(".")[-1].split("<")[0])
+
+        def _is_getclass(y):
+            while isinstance(y, dict) and y.get("k") == "PARENTHESIZED":
+                y = y.get("e")
+            return isinstance(y, dict) and y.get("k") == "METHOD_INVOCATION" and \
+                ((y["fn"].get("name") == "getClass") or (y["fn"].get("k") == "IDENTIFIER" and y["fn"].get("name") == "getClass"))
+        for cn, kc in jm.classes.items():
+            if cn.split(".")[0] in bad_files or cn.split(".")[-1] not in supers:
+                continue
+            for m_ in kc["methods"].get("equals", []):
+                stats["equals_of_superclasses"] = stats.get("equals_of_superclasses", 0) + 1
+                for x in _walk(m_.get("body")):
+                    if x.get("k") in ("EQUAL_TO", "NOT_EQUAL_TO") and _is_getclass(x.get("a")) and _is_getclass(x.get("b")):
+                        rep.add("C19|java|equals|class-strict-with-subclasses", f"{cn}.equals compares getClass(): {cn} has subclasses "
+                                f"in the generated module (named constants of a range tag) while parsers allocate {cn} itself, so a "
+                                f"value built from the named constant never equals the object parsed from its own encoding",
+                                f"{name} {cn}.equals")
         st = statics_of(jm)
         excl = set((g.entry(name).get("opts") or {}).get("exclude", {}).get("java", []))
         for decl, dd in r.decls.items():
